@@ -654,6 +654,9 @@ pub fn rekey(
     msk: &mut MasterSecretKey,
     rights: HashSet<Right>,
 ) -> Result<(), Error> {
+    // Generate all new secrets before modifying the MSK: in case of error
+    // (e.g. a right not belonging to the MSK), no right must have been re-keyed.
+    let mut new_secrets = Vec::with_capacity(rights.len());
     for r in rights {
         if msk.secrets.contains_key(&r) {
             // The new secret inherits both the hybridization and the activation
@@ -667,15 +670,18 @@ pub fn rekey(
                     Error::OperationNotPermitted(format!("no current key for coordinate {r:#?}"))
                 })?;
 
-            msk.secrets.insert(
+            new_secrets.push((
                 r,
                 (is_activated, RightSecretKey::random(rng, is_hybridized)?),
-            );
+            ));
         } else {
             return Err(Error::OperationNotPermitted(
                 "cannot re-key a right not belonging to the MSK".to_string(),
             ));
         }
+    }
+    for (r, secret) in new_secrets {
+        msk.secrets.insert(r, secret);
     }
     Ok(())
 }
